@@ -397,15 +397,30 @@ def _native_charts(tier="quick", seed=0):
     files = sorted(glob.glob(os.path.join(repo, "features", "steps", "test_files", "cht-*.pptx")))
     if tier == "quick":
         files = [f for f in files if os.path.basename(f) in ("cht-replace-data.pptx", "cht-charts.pptx", "cht-series.pptx", "cht-plot-props.pptx")]
-    for f in files:
+    # each file as authored, and once more with the c:order values of multi-plot charts interleaved between the plots (what PowerPoint
+    # writes when every other series of a column chart is turned into a line): the chart-wide series sequence stays plot by plot
+    for f, interleave in [(f_, i_) for f_ in files for i_ in (False, True)]:
         prs = Presentation(f)
         for sl in prs.slides:
             for sh in sl.shapes:
                 if not sh.has_chart:
                     continue
                 chart = sh.chart
+                what = "%s / %s%s" % (os.path.basename(f), chart.chart_type, " with c:order interleaved between plots" if interleave else "")
+                if interleave:
+                    C_ = "{http://schemas.openxmlformats.org/drawingml/2006/chart}"
+                    plots_ = [sorted(p._element.findall(C_ + "ser"), key=lambda e_: int(e_.find(C_ + "order").get("val"))) for p in chart.plots]
+                    if len(plots_) < 2:
+                        continue
+                    k_, rr_ = 0, [list(p_) for p_ in plots_]
+                    while any(rr_):
+                        for p_ in rr_:
+                            if p_:
+                                p_.pop(0).find(C_ + "order").set("val", str(k_))
+                                k_ += 1
+                    if [s_._element for s_ in chart.series] != [e_ for p_ in plots_ for e_ in p_]:
+                        bad = bad or "%s: chart.series is not the series of the first plot followed by those of the next" % what
                 evals += 1
-                what = "%s / %s" % (os.path.basename(f), chart.chart_type)
                 try:
                     is_xy = any(p._element.tag.endswith(("scatterChart", "bubbleChart")) for p in chart.plots)
                     if is_xy or validate_root(chart.part._element):
